@@ -239,8 +239,11 @@ def generate(tier):
     hasher = "#[derive(Clone)]\nstruct BH<'gc>(&'gc Lock<u32>);\nimpl<'gc> std::hash::BuildHasher for BH<'gc> { type Hasher = std::collections::hash_map::DefaultHasher; fn build_hasher(&self) -> Self::Hasher { Default::default() } }\n"
     for cname, cty, mk in (("HashMap", "std::collections::HashMap<u8, u8, BH<'gc>>", "std::collections::HashMap::with_hasher(BH(Gc::as_ref(g)))"), ("HashSet", "std::collections::HashSet<u8, BH<'gc>>", "std::collections::HashSet::with_hasher(BH(Gc::as_ref(g)))")):
         items = hasher + f"#[derive(Collect)]\n#[collect(no_drop)]\nstruct RX<'gc> {{ m: {cty}, g: Gc<'gc, Lock<u32>> }}\n"
-        body = f"let mut arena = Arena::<Rootable![RX<'_>]>::new(|mc| {{ let g = Gc::new(mc, Lock::new(1)); RX {{ m: {mk}, g }} }});\\narena.finish_cycle();"
+        body = f"let mut arena = Arena::<Rootable![RX<'_>]>::new(|mc| {{ let g = Gc::new(mc, Lock::new(1)); RX {{ m: {mk}, g }} }});\narena.finish_cycle();"
         ps.append(Probe(f"smuggle_ref_into_root/hasher_in_{cname}", prog(items, body), "reject", group="smuggle"))
+        twin_items = items.replace("struct BH<'gc>(&'gc Lock<u32>);", "struct BH<'gc>(u8, PhantomData<fn() -> &'gc ()>);").replace("m: " + cty, "m: " + cty.replace("BH<'gc>", "BH<'static>"))
+        twin_body = body.replace("BH(Gc::as_ref(g))", "BH(0, PhantomData)")
+        ps.append(Probe(f"smuggle_ref_into_root/hasher_in_{cname}/twin", prog(twin_items, twin_body), "accept", group="smuggle"))
     # ---- root-type shapes (known-finding family)
     for shape in SHAPES:
         for entry in ("new", "mutate", "mutate_root", "map_root"):
